@@ -80,6 +80,7 @@ structure Verdict where
   specModel : Bool
   nontrivial : Bool
   model : ObsJ
+  batchCancel : Bool := false   -- a batch run with an asynchronous cancellation during a retry wait (also judged as C11)
 
 def process (sc : ScJ) (obs : ObsJ) : Except String Verdict := do
   let kind ← match sc.kind with
@@ -130,13 +131,17 @@ def process (sc : ScJ) (obs : ObsJ) : Except String Verdict := do
     let io : Obs := { trace := itr, out := implOut, within := obs.within }
     let spec := !abnormal && io.within && c20Batch kind cfg scr items.length (!wide) io.trace
     let specModel := c20Batch kind cfg scr items.length (!wide) m.trace
-    pure { agree := !abnormal && io == m, spec, specModel, nontrivial := hasWait m.trace, model := obsToJ m }
+    pure { agree := !abnormal && io == m, spec, specModel, nontrivial := hasWait m.trace, model := obsToJ m,
+           batchCancel := anyCancel }
   | _, _, _, _ => throw "scenario must have exactly one of leaf+leafScript / batch+batchScript"
 
 def verdictJson (v : Verdict) : Json :=
-  Json.mkObj [("agree", Json.bool v.agree), ("spec", Json.mkObj [("C20", Json.bool v.spec)]),
-    ("specModel", Json.mkObj [("C20", Json.bool v.specModel)]),
-    ("nontrivial", Json.mkObj [("C20", Json.bool v.nontrivial)]), ("model", toJson v.model)]
+  -- C11's "no new retry attempt after the cancellation, the run terminates, unexecuted items carry errors" is the
+  -- same predicate on batch runs that are cancelled while an item sits in its retry wait
+  Json.mkObj [("agree", Json.bool v.agree),
+    ("spec", Json.mkObj [("C20", Json.bool v.spec), ("C11", Json.bool (!v.batchCancel || v.spec))]),
+    ("specModel", Json.mkObj [("C20", Json.bool v.specModel), ("C11", Json.bool (!v.batchCancel || v.specModel))]),
+    ("nontrivial", Json.mkObj [("C20", Json.bool v.nontrivial), ("C11", Json.bool v.batchCancel)]), ("model", toJson v.model)]
 
 def handle (sc obs : Json) : Json :=
   match fromJson? (α := ScJ) sc, fromJson? (α := ObsJ) obs with
